@@ -77,7 +77,8 @@ Eval(e, S) ==
     [] e.e = "comp" ->
          IF ~Expect(S, "iter", Str(e.k)) THEN R3(S, "", Drift("comp iter"))
          ELSE LET RECURSIVE Loop(_)
-                  Loop(T) == IF Expect(T, "next", Str(e.k)) THEN Loop(Adv(T))
+                  Loop(T) == IF Expect(T, "next", Str(e.k))
+                             THEN LET x == Eval(e.x, Adv(T)) IN IF ~IsNorm(x) THEN x ELSE Loop(x.S)     \* the element expression, per item
                              ELSE IF Expect(T, "stop", Str(e.k)) THEN R3(Adv(T), "?", Norm)
                              ELSE IF Expect(T, "raise", Str(e.k)) THEN R3(Adv(T), "", Exc("exc:" \o Str(e.k)))
                              ELSE R3(T, "", Drift("comp"))
@@ -119,14 +120,17 @@ RECURSIVE Exec(_, _), Block(_, _, _), ForLoop(_, _), WhileLoop(_, _), Handlers(_
 Block(stmts, i, S) ==
   IF i > Len(stmts) THEN R2(S, Norm)
   ELSE LET r == Exec(stmts[i], S) IN IF ~IsNorm(r) THEN r ELSE Block(stmts, i + 1, r.S)
+\* one loop event per variable of the loop target (their mutual order is not specified)
+RECURSIVE OutAll(_, _, _)
+OutAll(S, pre, names) == IF names = <<>> THEN S ELSE OutAll(Out(S, pre \o Head(names), "True", ""), pre, Tail(names))
 ForLoop(st, S) ==
   IF Expect(S, "next", Str(st.k))
   THEN LET names == TargetNames(st.t)
-           S1 == Out(Adv(S), "#loop_" \o names[1], "True", "")
+           S1 == OutAll(Adv(S), "#loop_", names)
            b == Binds(S1, names)
        IN IF ~IsNorm(b) THEN b
           ELSE LET r == Block(st.body, 1, b.S)
-                   S2 == IF r.comp.c = "drift" THEN r.S ELSE Out(r.S, "#endloop_" \o names[1], "True", "")
+                   S2 == IF r.comp.c = "drift" THEN r.S ELSE OutAll(r.S, "#endloop_", names)
                IN IF r.comp.c \in {"norm", "cont"} THEN ForLoop(st, S2)
                   ELSE IF r.comp.c = "brk" THEN R2(S2, Norm)
                   ELSE R2(S2, r.comp)
